@@ -79,6 +79,23 @@ class Config:
 
 
 _MODNS_BUSY = set()
+TOUCHED = []
+# modules whose module-level / class-level state is never mutated after initialisation (kept across paths)
+PURE_MODULES = ('pymodbus.utilities', 'pymodbus.compat', 'pymodbus.constants', 'pymodbus.exceptions')
+
+
+def reset_program_state():
+    """module and class namespaces hold mutable program state (class-level dicts, module-level singletons such as
+    diag_message._MCB): every path starts from freshly initialised modules, as a fresh process would"""
+    global TOUCHED
+    keep = []
+    for x in TOUCHED:
+        mod = x if isinstance(x, ModuleInfo) else x.module
+        if mod.name in PURE_MODULES:
+            keep.append(x)
+        else:
+            x.ns = None
+    TOUCHED = keep
 
 
 def module_ns(m, interp=None):
@@ -86,6 +103,7 @@ def module_ns(m, interp=None):
     if m.ns is not None:
         return m.ns
     m.ns = {'__name__': m.name}
+    TOUCHED.append(m)
     if m.name == 'pymodbus.compat':
         from . import libmodels
         m.ns.update(libmodels.COMPAT_NS)
@@ -106,6 +124,7 @@ def class_ns(c):
     if c.ns is not None:
         return c.ns
     c.ns = {}
+    TOUCHED.append(c)
     it = Interp(None, Config())
     fr = Frame(c.module, c, None, c.ns)
     fr.is_class_body = True
@@ -349,6 +368,10 @@ class Interp:
             return a * b
         if op is ast.Mult and isinstance(b, (list, bytes, str, tuple)) and isinstance(a, int):
             return a * b
+        if op is ast.Mult and isinstance(a, str) and isinstance(b, SInt) and len(a) == 1:
+            return RepStr('', a, b)
+        if op is ast.Add and isinstance(a, str) and isinstance(b, RepStr):
+            return RepStr(a + b.prefix, b.ch, b.n)
         if op is ast.Mult and isinstance(a, list) and isinstance(b, SInt):
             if len(a) == 1:
                 n = b
@@ -897,6 +920,11 @@ class Interp:
                     raise Unsupported('comprehension element may fork or raise for some index; needs a loop instead')
                 finally:
                     st.solver.pop()
+                if isinstance(val, Seq) and val.is_bytes() and val.items is not None:
+                    terms = [zint(x) for x in val.items]
+                    def chunk(k, terms=terms, j=j):
+                        return [mk(z3.substitute(t, (j, zint(k)))) for t in terms]
+                    return ChunkList(n, len(terms), chunk)
                 if not V._isnum(val):
                     raise Unsupported('comprehension over symbolic source with non-numeric element')
                 isb = isinstance(val, (bool, SBool))
@@ -1636,7 +1664,7 @@ class Interp:
         st = self.st
         if elem is not None and isinstance(v, (Seq, list)):
             s = to_seq(v)
-            return Seq.fresh(s.kind, hint, elem=elem)
+            return Seq.fresh(s.kind, hint, elem=elem, inp=False)
         if isinstance(v, (bool, SBool)):
             return mk(z3.Bool(st.fresh_name(hint)))
         if isinstance(v, (int, SInt)):
@@ -1645,7 +1673,7 @@ class Interp:
             s = to_seq(v)
             if isinstance(v, list) and any(not V._isnum(x) for x in v):
                 raise Unsupported('havoc of a list of non-numeric values (%s)' % hint)
-            r = Seq.fresh(s.kind, hint, elem=s.elem, lo=0 if s.is_bytes() else None, hi=256 if s.is_bytes() else None)
+            r = Seq.fresh(s.kind, hint, elem=s.elem, lo=0 if s.is_bytes() else None, hi=256 if s.is_bytes() else None, inp=False)
             return r
         if v is None:
             return None
@@ -1696,6 +1724,8 @@ class Interp:
             sq = to_seq(src); n = sq.length(); at = sq.at
         nz = zint(n)
         view = LoopView(self, fr)
+        if getattr(ann, 'entry', None) is not None:
+            object.__setattr__(view, '_ghost', dict(ann.entry(view)))
         st.prove('inv:%s#entry' % ann.name, ann.invariant(view, 0), kind='helper')
         which = st.branch(2, 'loop:%s' % ann.name)
         self.do_havoc(s, fr, ann)
@@ -1723,6 +1753,8 @@ class Interp:
     def cut_while(self, s, fr, ann):
         st = self.st
         view = LoopView(self, fr)
+        if getattr(ann, 'entry', None) is not None:
+            object.__setattr__(view, '_ghost', dict(ann.entry(view)))
         st.prove('inv:%s#entry' % ann.name, ann.invariant(view, None), kind='helper')
         which = st.branch(2, 'loop:%s' % ann.name)
         self.do_havoc(s, fr, ann)
@@ -1750,6 +1782,19 @@ class Interp:
 
 class _WouldFork(Exception):
     pass
+
+
+class RepStr:
+    """text prefix + ch * n with symbolic n (struct formats assembled at run time: '>' + 'H' * n)"""
+    def __init__(self, prefix, ch, n):
+        self.prefix, self.ch, self.n = prefix, ch, n
+
+
+class ChunkList:
+    """list of n byte strings of the same concrete length m: element(k) -> list of m byte values
+    (generator of struct.pack results joined by bytes.join)"""
+    def __init__(self, n, m, fn):
+        self.n, self.m, self.fn = n, m, fn
 
 
 class PyCallable:
@@ -1825,6 +1870,8 @@ class LoopView:
         object.__setattr__(self, '_fr', fr)
 
     def __getattr__(self, name):
+        if name.startswith('__'):
+            raise AttributeError(name)
         fr = object.__getattribute__(self, '_fr')
         if name == 'E':
             from .sym import SymE
@@ -1832,6 +1879,9 @@ class LoopView:
             E = SymE(it.st, it.cfg)
             E.I = it
             return E
+        g = self.__dict__.get('_ghost')
+        if g is not None and name in g:
+            return g[name]
         nm = mangle(name, fr.cls)
         if nm in fr.env:
             return fr.env[nm]
